@@ -1,5 +1,5 @@
 From Coq Require Extraction ExtrOcamlBasic.
-From GV Require Import Base.Grammar LR.Automaton LR.Validator Repair.Semantics.
+From GV Require Import Base.Grammar LR.Automaton LR.Validator Repair.Semantics Repair.Spec.
 Extraction Language OCaml.
 Extraction "model.ml" mkGrammar mkDump of_dump wf_grammar validS single_candidate run lhs
-  valid_repair apply_seq parse_ahead run_recover edit repaired erase vleaves advance.
+  valid_repair apply_seq parse_ahead run_recover edit repaired erase vleaves advance dump_no_shift_eof.
